@@ -9,7 +9,7 @@
 // 0..=WIN and a symbolic start position anywhere in the first byte, reached through *any* (bit, count) state
 // that a previous step can leave behind.  WIN = 5 holds the longest code (30 bits) from any start bit
 // (7 + 30 <= 40), so every symbol and every way of running out of input is covered: complete per step.
-// The recursion through the nested tables is 14 deep; unwind(18) with unwinding assertions proves that bound.
+// The recursion through the nested tables is 14 deep; unwind(16) with unwinding assertions proves that bound.
 use super::*;
 #[path = "/verif/kani/_spec.rs"]
 mod spec;
@@ -64,19 +64,20 @@ fn c15_huff_read_bits() {
 //  * a valid end (0..=7 one-bits left)  =>  Ok(None): valid strings are accepted;
 //  * never a panic, whatever the window holds.
 // Which *invalid* ends are rejected is the business of the c15_huff_eof_* harnesses.
-// The start positions 0..=7 are split over harnesses only to keep each below the quick-tier budget.
-fn decode_next_symbol_case(lo: usize, hi: usize) {
+// vp: props=C15,C06; tag=C15.huff.decode.symbol; kind=complete; tier=quick
+#[kani::proof]
+#[kani::unwind(16)]
+fn c15_huff_decode_next_symbol() {
     let arr: [u8; WIN] = kani::any();
     let n: usize = kani::any();
     kani::assume(n <= WIN);
     let (mut pos, start) = any_state();
-    kani::assume(lo <= start && start <= hi);
     kani::assume(start <= 8 * n);
     let want = spec_huff_step(&arr[..n], start);
     let res = HPACK_STRING.decode_next(&mut pos, &arr[..n]);
     match want {
         SpecHuffStep::Sym { sym, len } => {
-            assert!(res == Ok(Some(sym)), "C15.huff.decode.symbol: the symbol whose code starts the window");
+            assert!(matches!(res, Ok(Some(x)) if x == sym), "C15.huff.decode.symbol: the symbol whose code starts the window");
             assert!(end_of(&pos) == start + len as usize, "C15.huff.decode.advance: advanced by the code length");
             assert!(pos.bit < 8);
         }
@@ -86,43 +87,20 @@ fn decode_next_symbol_case(lo: usize, hi: usize) {
         SpecHuffStep::End { pad_ok } => {
             assert!(!matches!(res, Ok(Some(_))), "C15.huff.decode.symbol: no symbol from a cut-off code");
             if pad_ok {
-                assert!(res == Ok(None), "C15.huff.decode.end: valid padding ends the string");
+                assert!(matches!(res, Ok(None)), "C15.huff.decode.end: valid padding ends the string");
             }
         }
     }
-    kani::cover!(matches!(want, SpecHuffStep::Sym { len: 5, .. }) && start == hi);
-    kani::cover!(matches!(want, SpecHuffStep::Sym { len: 30, .. }) && start == hi);
-    kani::cover!(matches!(want, SpecHuffStep::Sym { sym: 0, .. }));
-    kani::cover!(matches!(want, SpecHuffStep::Eos));
-    kani::cover!(matches!(want, SpecHuffStep::End { pad_ok: true }) && n == 1 && start == lo);
-    kani::cover!(matches!(want, SpecHuffStep::End { pad_ok: false }));
+    kani::cover!(matches!(want, SpecHuffStep::Sym { len: 30, .. }) && start == 7);
+    kani::cover!(matches!(want, SpecHuffStep::Sym { len: 5, .. }) && n == 1);
+    kani::cover!(matches!(want, SpecHuffStep::End { pad_ok: true }) && n == 1 && start == 3);
 }
 
-// vp: props=C15,C06; tag=C15.huff.decode.symbol; kind=complete; tier=quick
-#[kani::proof]
-#[kani::unwind(18)]
-fn c15_huff_decode_next_symbol_s01() {
-    decode_next_symbol_case(0, 1);
+/// A `Vec` that views the first `n` bytes of `arr` without allocating (Kani cannot afford allocation +
+/// copy here: 200 s instead of 60 s).  Never dropped, never grown.
+fn view_vec(arr: &mut [u8; WIN], n: usize) -> std::mem::ManuallyDrop<Vec<u8>> {
+    std::mem::ManuallyDrop::new(unsafe { Vec::from_raw_parts(arr.as_mut_ptr(), n, WIN) })
 }
-// vp: props=C15,C06; tag=C15.huff.decode.symbol; kind=complete; tier=quick
-#[kani::proof]
-#[kani::unwind(18)]
-fn c15_huff_decode_next_symbol_s23() {
-    decode_next_symbol_case(2, 3);
-}
-// vp: props=C15,C06; tag=C15.huff.decode.symbol; kind=complete; tier=quick
-#[kani::proof]
-#[kani::unwind(18)]
-fn c15_huff_decode_next_symbol_s45() {
-    decode_next_symbol_case(4, 5);
-}
-// vp: props=C15,C06; tag=C15.huff.decode.symbol; kind=complete; tier=quick
-#[kani::proof]
-#[kani::unwind(18)]
-fn c15_huff_decode_next_symbol_s67() {
-    decode_next_symbol_case(6, 7);
-}
-
 /// One step of the public iterator on `content`, starting from window state `pos`.
 fn iter_step(content: &Vec<u8>, pos: BitWindow) -> Option<Result<u8, Error>> {
     let mut it = DecodeIter { bit_pos: pos, content };
@@ -133,20 +111,20 @@ fn iter_step(content: &Vec<u8>, pos: BitWindow) -> Option<Result<u8, Error>> {
 // RFC 7541 §5.2 "A padding strictly longer than 7 bits MUST be treated as a decoding error": when 8 or more
 // one-bits (and nothing else) follow the last symbol, the step must report an error, not the end.
 #[kani::proof]
-#[kani::unwind(18)]
+#[kani::unwind(16)]
 fn c15_huff_eof_padding_too_long() {
-    let arr: [u8; WIN] = kani::any();
+    let mut arr: [u8; WIN] = kani::any();
     let n: usize = kani::any();
     kani::assume(n <= WIN);
     let (pos, start) = any_state();
     kani::assume(start <= 8 * n);
     let avail = 8 * n - start;
     kani::assume(avail >= 8 && avail < 30); // thirty ones are EOS: c15_huff_eof_eos_rejected
-    kani::assume(spec_huff_step(&arr[..n], start) == SpecHuffStep::End { pad_ok: false });
     kani::assume(spec_window32(&arr[..n], start) >> (32 - avail) == (1u32 << avail) - 1); // all ones
+    assert!(spec_huff_step(&arr[..n], start) == SpecHuffStep::End { pad_ok: false });
     kani::cover!(avail == 8);
     kani::cover!(avail == 29);
-    let v: Vec<u8> = arr[..n].to_vec();
+    let v = view_vec(&mut arr, n);
     let res = iter_step(&v, pos);
     assert!(matches!(res, Some(Err(_))), "C15.huff.eof.len: padding of 8 or more bits accepted");
 }
@@ -155,21 +133,20 @@ fn c15_huff_eof_padding_too_long() {
 // RFC 7541 §5.2 "A padding not corresponding to the most significant bits of the code for the EOS symbol
 // MUST be treated as a decoding error": bits after the last symbol that are not all ones => error.
 #[kani::proof]
-#[kani::unwind(18)]
+#[kani::unwind(16)]
 fn c15_huff_eof_padding_not_ones() {
-    let arr: [u8; WIN] = kani::any();
+    let mut arr: [u8; WIN] = kani::any();
     let n: usize = kani::any();
     kani::assume(n <= WIN);
     let (pos, start) = any_state();
     kani::assume(start <= 8 * n);
     let avail = 8 * n - start;
-    kani::assume(avail >= 1);
+    kani::assume(avail >= 1 && avail < 30); // 30 or more bits always hold a complete code
     kani::assume(spec_huff_step(&arr[..n], start) == SpecHuffStep::End { pad_ok: false });
-    kani::assume(avail >= 32 || spec_window32(&arr[..n], start) >> (32 - avail) != (1u32 << avail) - 1); // a zero bit
+    kani::assume(spec_window32(&arr[..n], start) >> (32 - avail) != (1u32 << avail) - 1); // a zero bit
     kani::cover!(avail == 5);
-    kani::cover!(avail == 7 && n == 1);
     kani::cover!(avail == 21);
-    let v: Vec<u8> = arr[..n].to_vec();
+    let v = view_vec(&mut arr, n);
     let res = iter_step(&v, pos);
     assert!(matches!(res, Some(Err(_))), "C15.huff.eof.ones: padding that is not a prefix of EOS accepted");
 }
@@ -178,41 +155,41 @@ fn c15_huff_eof_padding_not_ones() {
 // RFC 7541 §5.2 "A Huffman-encoded string literal containing the EOS symbol MUST be treated as a decoding
 // error": thirty one-bits at a symbol boundary => error, whatever follows.
 #[kani::proof]
-#[kani::unwind(18)]
+#[kani::unwind(16)]
 fn c15_huff_eof_eos_rejected() {
-    let arr: [u8; WIN] = kani::any();
+    let mut arr: [u8; WIN] = kani::any();
     let n: usize = kani::any();
     kani::assume(n <= WIN);
     let (pos, start) = any_state();
-    kani::assume(start <= 8 * n);
-    kani::assume(spec_huff_step(&arr[..n], start) == SpecHuffStep::Eos);
+    kani::assume(start + 30 <= 8 * n);
+    kani::assume(spec_window32(&arr[..n], start) >> 2 == 0x3fff_ffff); // thirty ones
+    assert!(spec_huff_step(&arr[..n], start) == SpecHuffStep::Eos);
     kani::cover!(n == 4 && start == 0);
     kani::cover!(n == 5 && start == 7);
-    let v: Vec<u8> = arr[..n].to_vec();
+    let v = view_vec(&mut arr, n);
     let res = iter_step(&v, pos);
     assert!(matches!(res, Some(Err(_))), "C15.huff.eof.eos: EOS inside the string accepted");
 }
 
 // vp: props=C15,C06; tag=C15.huff.iter; kind=complete; tier=quick
-// DecodeIter::next is decode_next with the result re-wrapped (Ok(Some(x)) -> Some(Ok(x)), Ok(None) -> None,
-// Err -> Some(Err)); for symbols and valid ends it therefore inherits c15_huff_decode_next_symbol.
-// Checked on the valid cases: symbol => Some(Ok(sym)) and the iterator's own state advanced by its length;
-// valid end => None.  hpack_decode() starts at position 0.
+// DecodeIter::next (the step `prefix_string::decode` repeats) on every window: a symbol => Some(Ok(sym)) and
+// the iterator's own position advanced by the code length; a valid end => None; otherwise never Some(Ok(_)).
+// hpack_decode() starts at position 0.
 #[kani::proof]
-#[kani::unwind(18)]
+#[kani::unwind(16)]
 fn c15_huff_iter_next() {
-    let arr: [u8; WIN] = kani::any();
+    let mut arr: [u8; WIN] = kani::any();
     let n: usize = kani::any();
     kani::assume(n <= WIN);
     let (pos, start) = any_state();
     kani::assume(start <= 8 * n);
     let want = spec_huff_step(&arr[..n], start);
-    let v: Vec<u8> = arr[..n].to_vec();
+    let v = view_vec(&mut arr, n);
     let mut it = DecodeIter { bit_pos: pos, content: &v };
     let res = it.next();
     match want {
         SpecHuffStep::Sym { sym, len } => {
-            assert!(res == Some(Ok(sym)), "C15.huff.iter: symbol");
+            assert!(matches!(res, Some(Ok(x)) if x == sym), "C15.huff.iter: symbol");
             assert!(end_of(&it.bit_pos) == start + len as usize, "C15.huff.iter: advance");
         }
         SpecHuffStep::End { pad_ok: true } => assert!(res.is_none(), "C15.huff.iter: valid end"),
